@@ -55,7 +55,7 @@ theorem literalName_spec {β : Type} (f : Option AName → β) (lit : ABuf) (s :
       (fun r s' => ∃ name, r = f name ∧ Clean s s' lit.owned (ownedNameOpt name) ∧ (s.hits < s'.hits → name = none)) := by
   have hl : lit.hdr ∈ s.live := own.2 _ (by simp [ABuf.owned])
   refine Good.bind (bufCstr_spec lit s hl) ?_
-  intro cstr s0 e0; subst e0
+  intro cstr s0 ⟨e0, _⟩; subst e0
   refine Good.bind (nameCreateLiteral_spec cstr s0 wf) ?_
   intro name s1 ⟨c1, h1⟩
   have own1 : Owns s1 lit.owned := c1.keeps own (by simp)
